@@ -169,13 +169,22 @@ func main() {
 	for i := 0; i < g; i++ {
 		seeds = append(seeds, base.Uint64())
 	}
-	// sequential pre-pass: the reference results ("as when used one call at a time")
+	// sequential pass: the reference results ("as when used one call at a time"). In a "cold" run it
+	// comes after the concurrent run, so that the tasks are the first users of the libraries in this
+	// process: lazily initialised package state (memo tables, caches, once-flags) is then filled
+	// under the scheduler's eyes instead of by the reference pass.
+	cold, _ := rig["cold"].(bool)
 	expected := make([][]string, g)
-	for i := 0; i < g; i++ {
-		t := newTask(seeds[i], nops)
-		for k := range t.ops {
-			expected[i] = append(expected[i], t.runOp(k))
+	sequential := func() {
+		for i := 0; i < g; i++ {
+			t := newTask(seeds[i], nops)
+			for k := range t.ops {
+				expected[i] = append(expected[i], t.runOp(k))
+			}
 		}
+	}
+	if !cold {
+		sequential()
 	}
 	// controlled concurrent run
 	tasks := make([]*taskState, g)
@@ -195,6 +204,9 @@ func main() {
 		})
 	}
 	res := simrt.Run(bodies, chooser(rig, w.S.Seed))
+	if cold {
+		sequential()
+	}
 	for _, c := range res.Conflicts {
 		a, b := "read", "read"
 		if c.WriteA {
